@@ -174,7 +174,7 @@ func genAdv(prop string) func(rt *rapid.T) interface{} {
 			kinds = append(kinds, advFuzz...)
 			kinds = append(kinds, advFuzz...)
 			kinds = append(kinds, advFuzz...)
-			kinds = append(kinds, "stall-partial-body", "stall-partial-body", "reuse-addr", "reuse-addr", "ps-m5-badltpk", "ps-m5-badltpk", "pairings-add-shortkey", "pairings-add-shortkey", "pv-m3-shortkey-name", "pv-m3-shortkey-name", "ps-m3-a0-pubproof", "ps-m3-longA", "ps-m3-badprooflen", "ps-m5-weak")
+			kinds = append(kinds, "stall-partial-body", "stall-partial-body", "reuse-addr", "reuse-addr", "ps-m5-badltpk", "ps-m5-badltpk", "ps-m5-longname", "ps-m5-longname", "pairings-add-shortkey", "pairings-add-shortkey", "pv-m3-shortkey-name", "pv-m3-shortkey-name", "ps-m3-a0-pubproof", "ps-m3-longA", "ps-m3-badprooflen", "ps-m5-weak")
 			kinds = append(kinds, "ps-m1", "ps-m3-right", "ps-m3-wrong", "ps-m3-a0", "ps-m3-noA", "ps-m5-short", "ps-m5-random", "ps-m5-tampered", "ps-unknown-state", "ps-unknown-method",
 				"pv-m1", "pv-m1-short", "pv-m3-genuine", "pv-m3-short", "pv-m3-wrongseal", "pv-m3-badtlv", "pv-m3-unknown", "pv-m3-self", "pv-unknown-state", "get-acc", "put-val", "put-ev", "get-chars")
 		}
@@ -228,6 +228,34 @@ type peerConn struct {
 	pvStarted bool
 	pvPrev    struct{ cPub, aPub [32]byte }
 	pvHave    bool
+
+	// spell > 0: requests to the protected endpoints use another legal spelling of the
+	// request target (1 absolute-form, 2 / 3 a percent-encoded unreserved character)
+	spell int
+}
+
+// respell gives a protected request target another spelling that RFC 7230 / RFC 3986 treat
+// as equivalent: whatever decides about protection and whatever routes must agree on it.
+func respell(path string, how int) string {
+	prot := false
+	for _, pre := range []string{"/accessories", "/characteristics", "/pairings", "/resource", "/identify"} {
+		prot = prot || strings.HasPrefix(path, pre)
+	}
+	if !prot || how == 0 {
+		return path
+	}
+	end := strings.IndexAny(path, "?")
+	if end < 0 {
+		end = len(path)
+	}
+	switch how {
+	case 1:
+		return "http://acc.local" + path
+	case 2:
+		return fmt.Sprintf("/%%%02x%s", path[1], path[2:])
+	default:
+		return fmt.Sprintf("%s%%%02X%s", path[:end-1], path[end-1], path[end:])
+	}
 }
 
 type advWorld struct {
@@ -305,6 +333,12 @@ func (p *peerConn) post(path, ctype string, body []byte, r *advResult) {
 }
 
 func (p *peerConn) request(method, path, ctype string, body []byte, r *advResult) {
+	if p.spell > 0 {
+		if np := respell(path, p.spell); np != path {
+			path = np
+			p.w.Sim.Count("probe.protected_request_with_unusual_target_spelling")
+		}
+	}
 	if err := p.cl.Send(ref.Request(method, path, ctype, body)); err != nil {
 		r.Err = err.Error()
 		return
@@ -404,6 +438,10 @@ func (aw *advWorld) do(p *peerConn, op AdvOp) *advResult {
 	}
 	sc := aw.sc
 	w := aw.w
+	p.spell = 0
+	if sc.Prop == "C01" && (op.Arg/3)%4 == 1 {
+		p.spell = 1 + (op.Arg/12)%3
+	}
 	if sc.Legit && !aw.legitDone && op.Arg%3 == 0 {
 		// a third of the protected requests are timed to overlap with a request of the legitimate
 		// controller to the same endpoint (shared per-endpoint state is the place to look)
@@ -742,6 +780,20 @@ func (aw *advWorld) do(p *peerConn, op AdvOp) *advResult {
 		w.Rand.Read(sig)
 		sub := ref.TLVEncode([]ref.TLV{{Tag: ref.TagIdentifier, Val: []byte("badkey-" + fmt.Sprint(op.Arg))}, {Tag: ref.TagPublicKey, Val: ltpk}, {Tag: ref.TagSignature, Val: sig}})
 		enc := ref.Seal(encKey, []byte("PS-Msg05"), sub, nil)
+		p.post("/pair-setup", ref.CTypeTLV, ref.TLVEncode([]ref.TLV{{Tag: ref.TagState, Val: []byte{5}}, {Tag: ref.TagEncrypted, Val: enc}}), r)
+		p.m3rightOK, p.setupClean, p.srp = false, false, nil
+	case "ps-m5-longname":
+		// a correctly sealed and signed key exchange whose identifier is legal (one TLV item)
+		// but long: 100..255 bytes. Whether the accessory stores it or not, it must stay usable.
+		K := make([]byte, 64)
+		if p.srp != nil && p.m3rightOK {
+			K = p.srp.K
+			w.Sim.Count("probe.long_identifier_after_right_proof")
+		}
+		encKey := ref.HKDF(K, "Pair-Setup-Encrypt-Salt", "Pair-Setup-Encrypt-Info")
+		name := fmt.Sprintf("long-%d-", op.Arg)
+		name += strings.Repeat("n", 100+op.Arg%156-len(name))
+		enc := ref.SetupM5PayloadWith(encKey, K, name, aw.peerKP.Pub, aw.peerKP.Priv)
 		p.post("/pair-setup", ref.CTypeTLV, ref.TLVEncode([]ref.TLV{{Tag: ref.TagState, Val: []byte{5}}, {Tag: ref.TagEncrypted, Val: enc}}), r)
 		p.m3rightOK, p.setupClean, p.srp = false, false, nil
 	case "pairings-add-shortkey":
